@@ -44,7 +44,7 @@ PLANS = {
     'C06': {'jobs': [J('chan', W124, 4), J('chan', [2], 2, 'asan'), S('chanrace', [1, 2, 4], 2), D('chan', [1, 2], 'CH_,SEM_,SYNCBLOCKER_'), H('chan', [2], 'CH_MPSC_SEND_PUSHED,CH_MPSC_RECV_REGISTERED,CH_SPSC_SEND_PUSHED,CH_SPSC_SUB_STORED,CH_MPMC_SEND_PUSHED,CH_MPMC_RECV_EMPTY')]},
     'C07': {'jobs': [J('dis', W124, 3), J('disrx', W124, 1), J('dis', [2], 1, 'asan'), S('disrace', W124, 2), D('dis', [1, 2], 'CH_,SEM_'), H('dis', [2], 'CH_MPSC_DROPCHAN_BEFORE,CH_MPSC_RECV_REGISTERED,CH_SPSC_DROPCHAN_ZEROED,CH_SPSC_SUB_STORED,CH_MPMC_DROPTX_SUBBED,CH_MPMC_RECV_EMPTY')]},
     'C08': {'jobs': [J('tmr', W124, 3), J('tmrmix', W124, 1), J('tmr', [2, 4], 1, 'asan'), S('tmrrace', W124, 2), D('tmr', [1, 2], 'TT_,TL_,TIMER_,SLEEP_,LIST_,PARK_SUB'), H('tmr', [2], 'TT_ADD_BEFORE_WAKE,TT_BEFORE_PARK,TT_RUN_REGISTERED,TL_INSTALL_BH'), J('tmr', [2], 1, fresh=3, k=1, random=0), J('yieldspin', [1, 2], 1, k=1, random=2)]},
-    'C09': {'jobs': [J('can', W124, 3), J('mutexc', [2], 1), J('semc', [1, 2], 1), J('cvc', [2], 1), J('relock', [2], 1), J('rwc', [2], 1), J('rwcr', [2], 1), J('iocan', [2], 1), J('iocant', [2], 1),
+    'C09': {'jobs': [J('can', W124, 3), J('mutexc', [2], 1), J('semc', [1, 2], 1), J('cvc', [2], 1), J('relock', [2], 1), J('rwc', [2], 1), J('rwcr', [2], 1), J('iocan', [2], 1), J('iocant', [2], 1), J('iocanshare', [1, 2], 1),
                      J('can', [2, 4], 1, 'asan'), S('hsmutex', [2], 1), S('hssem', [2], 1), D('can', [2], 'CANCEL_,PARK_SUB,MUTEX_CANCEL,SEM_,CV_')]},
     'C10': {'jobs': [J('sem', W124, 2), J('semc', W124, 1), J('flag', W124, 1), J('semc', [2], 1, 'asan'), S('hssem', [2, 4], 2), S('semrace', [2, 4], 1), D('sem', [1, 2], 'SEM_,SYNCBLOCKER_'), D('semlock', [1, 2], 'SEM_,SYNCBLOCKER_'), J('semlock', [2, 4], 1), D('flag', [2], 'FLAG_'), H('sem', [2], 'SEM_WAIT_PUSHED,SEM_WAIT_SUBBED,SEM_POST_ADDED'), H('flag', [2], 'FLAG_WAIT_PUSHED,FLAG_WAIT_SUBBED,FLAG_FIRE_STORED'), J('stale', [1, 2], 1, k=1, random=2)]},
     'C11': {'jobs': [J('cv', W124, 2), J('cvc', W124, 1), J('relock', W124, 1), J('barc', W124, 1), J('bar', W124, 1), J('cvc', [2], 1, 'asan'), S('cvrace', [2, 4], 2), D('cv', [1, 2], 'CV_,SYNCBLOCKER_,MUTEX_'), D('cvc', [2], 'CV_,SYNCBLOCKER_,MUTEX_CANCEL'), H('cv', [2], 'CV_WAIT_PUSHED,CV_WAIT_UNLOCKED,CV_NOTIFY_POPPED,CV_ERR_CHECK'), J('stale', [1, 2], 1, k=1, random=2), J('cvpoison', W124, 1)]},
@@ -56,7 +56,7 @@ PLANS = {
     'C16': {'jobs': [J('sel', W124, 2), J('cq', W124, 2), J('cq', [2, 4], 1, 'asan'), S('cqrace', [2, 4], 2), D('cq', [1, 2], 'CQ_'), D('sel', [2], 'CQ_'), H('cq', [2, 4], 'CQ_DROP_PUSHED,CQ_POLL_COUNTED'), H('sel', [2], 'CQ_SEND_SUB_PUSHED,CQ_POLL_REGISTERED,CQ_POLL_COUNTED'), J('selc', [2], 1)]},
     'C17': {'jobs': [J('io', W124, 2), J('tcp', W124, 1), J('dgram', W124, 1), J('io', [2], 1, 'asan'), J('tcp', [2], 1, 'asan'), J('iochurn', W124, 1), J('unixsrv', [2, 4], 1), S('iorace', [1, 2, 4], 2),
                      J('tcp', [16], 1, thorough_only=True), J('iochurn', [16], 1, thorough_only=True), S('unixsrv', [16], 1, thorough_only=True), D('io', [2], 'IO_READ,IO_WRITE,EP_,IOTHREAD_'), D('tcp', [2], 'IO_ACCEPT,IO_CONNECT,EP_'), H('io', [2], 'IO_READ_EAGAIN,IO_READ_SUB_STORED,IO_WRITE_EAGAIN,IO_WRITE_SUB_STORED,EP_EVENT_FLAGGED'), J('tcp', [2], 1, fresh=3, k=1, random=0), J('yieldspinio', [1, 2], 1, k=1, random=2), J('ioext', W124, 1), J('ioext', [2], 1, 'asan')]},
-    'C18': {'jobs': [J('iot', W124, 3), J('iocan', W124, 2), J('iocant', W124, 1), J('iot', [2], 1, 'asan'), D('iot', [2], 'IO_,EP_,TL_,LIST_'), D('iocan', [2], 'IO_,CANCEL_'), H('iot', [2, 4], 'IO_TIMEOUT_TIMER_TAKEN,IO_TIMEOUT_HANDLER_ENTER,IO_READ_SUB_ARMED,IO_READ_SUB_STORED,IO_SCHEDULE_TOOK,IO_READ_EAGAIN'), J('yieldspinio', [1, 2], 1, k=1, random=2), J('ioext', [1, 2], 1), S('iotrace', [1, 2, 4], 1), S('iotrace', [2], 1)]},
+    'C18': {'jobs': [J('iot', W124, 3), J('iocan', W124, 2), J('iocant', W124, 1), J('iot', [2], 1, 'asan'), D('iot', [2], 'IO_,EP_,TL_,LIST_'), D('iocan', [2], 'IO_,CANCEL_'), H('iot', [2, 4], 'IO_TIMEOUT_TIMER_TAKEN,IO_TIMEOUT_HANDLER_ENTER,IO_READ_SUB_ARMED,IO_READ_SUB_STORED,IO_SCHEDULE_TOOK,IO_READ_EAGAIN'), J('yieldspinio', [1, 2], 1, k=1, random=2), J('ioext', [1, 2], 1), S('iotrace', [1, 2, 4], 1), S('iotrace', [2], 1), J('iocanshare', [2], 1)]},
     'C03': {'engine': 'q', 'jobs': [J('q', lane='q'), J('q', lane='qasan'), J('q', lane='qtsan')]},
     'C04': {'engine': 'q', 'jobs': [J('q', lane='q'), J('q', lane='qasan')]},
     'C19': {'engine': 'q', 'jobs': [J('q', lane='q'), J('q', lane='qasan')]},
